@@ -543,6 +543,7 @@ def runActs : List Act → Nat → Nat → List Tok → Out
     | .drop => runActs as start e []
     | .rev => runActs as start e ts.reverse
     | .dup => runActs as start e (ts ++ ts)
+    | .app v => runActs as start e (ts ++ [.s v])
     | .failP => .fail .parse start
     | .failF => .fail .fatal start
     | .condFalse fatal => .fail (if fatal then .fatal else .parse) start
@@ -640,25 +641,27 @@ def parseImpl (g : Grammar) (p : P) (nd : Node) (s : List Char) (loc : Nat) (act
   | .forward e => enhanceImpl p acts e loc
   | .skipTo e incl failOn ignorer => skipToImpl p s acts e incl failOn ignorer loc
 
-/-- ParserElement._parseNoCache (813-912) -/
+/-- ParserElement._parseNoCache (813-912), with the nested `_parse` calls going through `p` -/
+def parseStep (g : Grammar) (s : List Char) (p : P) : P := fun id loc acts callPre =>
+  match g[id]? with
+  | none => .hang
+  | some nd =>
+    match (if callPre && nd.callPre then preParse p nd s loc else PreR.at loc) with
+    | .abort o => o
+    | .at pre =>
+      let r := parseImpl g p nd s pre acts
+      let r := match r with
+        | .idx => if nd.mayIdx || pre ≥ s.length then Out.fail .parse s.length else .idx
+        | r => r
+      match r with
+      | .ok e ts =>
+        let ts := postParse nd ts
+        if !nd.acts.isEmpty && (acts || nd.callDuringTry) then runActs nd.acts pre e ts else .ok e ts
+      | o => o
+
+/-- `expr._parse` with memoization off: `_parseNoCache` all the way down -/
 def parse (g : Grammar) (s : List Char) : Nat → P
   | 0 => fun _ _ _ _ => .hang
-  | f+1 => fun id loc acts callPre =>
-    match g[id]? with
-    | none => .hang
-    | some nd =>
-      let p := parse g s f
-      match (if callPre && nd.callPre then preParse p nd s loc else PreR.at loc) with
-      | .abort o => o
-      | .at pre =>
-        let r := parseImpl g p nd s pre acts
-        let r := match r with
-          | .idx => if nd.mayIdx || pre ≥ s.length then Out.fail .parse s.length else .idx
-          | r => r
-        match r with
-        | .ok e ts =>
-          let ts := postParse nd ts
-          if !nd.acts.isEmpty && (acts || nd.callDuringTry) then runActs nd.acts pre e ts else .ok e ts
-        | o => o
+  | f+1 => parseStep g s (parse g s f)
 
 end PP.Parse
